@@ -129,6 +129,20 @@ func (p *C10) Gen(seed uint64, i int, tier string) *scen.Scenario {
 			for q := r.Intn(3); q > 0; q-- {
 				op.Opts = append(op.Opts, setting(false))
 			}
+			if r.Chance(1, 4) {
+				// free-form attribute arguments before / between the options (only with options that carry no attributes)
+				hasAttrOpt := false
+				for _, o := range op.Opts {
+					if o.Kind == "attrs" || o.Kind == "attrs1" || o.Kind == "args" {
+						hasAttrOpt = true
+					}
+				}
+				if !hasAttrOpt && op.Named {
+					attrN++
+					op.Args = []scen.Arg{{K: "key", S: fmt.Sprintf("k%d", attrN)}, {K: "i", I: int64(attrN)}}
+					op.Kind = scen.Pick(r, []string{"args_first", "interleaved", ""})
+				}
+			}
 			existing := false
 			for _, n := range l.names {
 				if n == op.Name && op.Name != "" {
@@ -370,6 +384,9 @@ func (p *C10) Check(sc *scen.Scenario, run *orch.Run, env *orch.Env) []orch.Viol
 			for k := range op.Opts {
 				c10Apply(m, &op.Opts[k])
 			}
+			for _, a := range flattenArgs(op.Args) {
+				m.attrs = append(m.attrs, a.Key)
+			}
 			ms[rl.ID] = m
 			target = rl.ID
 		case "new_child":
@@ -400,6 +417,9 @@ func (p *C10) Check(sc *scen.Scenario, run *orch.Run, env *orch.Env) []orch.Viol
 			}
 			for k := range op.Opts {
 				c10Apply(m, &op.Opts[k])
+			}
+			for _, a := range flattenArgs(op.Args) {
+				m.attrs = append(m.attrs, a.Key)
 			}
 			target = rl.ID
 		case "with":
